@@ -234,6 +234,96 @@ impl BigSem {
         }
     }
 
+    /// positions left undecided by the grounded interpretation
+    pub fn undecided_after_grounding(&self) -> (Vec<Val>, Vec<usize>) {
+        let (g, _) = self.grounded_rounds();
+        let und = (0..self.n).filter(|i| g[*i] == VU).collect();
+        (g, und)
+    }
+
+    fn is_fixpoint(&self, v: &[Val]) -> bool {
+        (0..self.n).all(|s| self.eval3(s, v) == v[s])
+    }
+
+    /// all complete models. Every fixpoint of gamma refines the least one, so the candidates are the 3^k
+    /// refinements of the grounded interpretation (k statements left undecided); exact for any n when k is small.
+    pub fn complete(&self, max_undecided: usize) -> Option<Vec<Vec<Val>>> {
+        let (g, und) = self.undecided_after_grounding();
+        if und.len() > max_undecided {
+            return None;
+        }
+        let mut res = Vec::new();
+        let mut digits = vec![0u8; und.len()];
+        loop {
+            let mut v = g.clone();
+            for (d, i) in digits.iter().zip(&und) {
+                v[*i] = match *d {
+                    0 => VU,
+                    1 => VT,
+                    _ => VF,
+                };
+            }
+            if self.is_fixpoint(&v) {
+                res.push(v);
+            }
+            let mut i = 0;
+            loop {
+                if i == digits.len() {
+                    return Some(res);
+                }
+                if digits[i] < 2 {
+                    digits[i] += 1;
+                    break;
+                }
+                digits[i] = 0;
+                i += 1;
+            }
+        }
+    }
+
+    /// all two-valued models (total fixpoints): among the 2^k completions of the grounded interpretation
+    pub fn two_valued(&self, max_undecided: usize) -> Option<Vec<Vec<Val>>> {
+        let (g, und) = self.undecided_after_grounding();
+        if und.len() > max_undecided {
+            return None;
+        }
+        let mut res = Vec::new();
+        for bits in 0..(1usize << und.len()) {
+            let mut v = g.clone();
+            for (pos, i) in und.iter().enumerate() {
+                v[*i] = if (bits >> pos) & 1 == 1 { VT } else { VF };
+            }
+            let asg = |i: usize| v[i] == VT;
+            if (0..self.n).all(|s| self.eval2(s, &asg) == (v[s] == VT)) {
+                res.push(v);
+            }
+        }
+        Some(res)
+    }
+
+    /// stability of a two-valued model by definition: the statements false in v are replaced by falsum (fixed to
+    /// F); the least fixpoint of the operator on the remaining statements must make every true statement true
+    pub fn is_stable(&self, v: &[Val]) -> bool {
+        let mut w: Vec<Val> = v.iter().map(|x| if *x == VF { VF } else { VU }).collect();
+        loop {
+            let mut next = w.clone();
+            for s in 0..self.n {
+                if v[s] != VF {
+                    next[s] = self.eval3(s, &w);
+                }
+            }
+            if next == w {
+                break;
+            }
+            w = next;
+        }
+        (0..self.n).all(|s| v[s] == VF || w[s] == VT)
+    }
+
+    pub fn stable(&self, max_undecided: usize) -> Option<Vec<Vec<Val>>> {
+        Some(self.two_valued(max_undecided)?.into_iter().filter(|v| self.is_stable(v)).collect())
+    }
+
     /// evaluate condition s under a total assignment
     pub fn eval2(&self, s: usize, asg: &dyn Fn(usize) -> bool) -> bool {
         self.ac[s].eval(asg)
@@ -265,6 +355,32 @@ mod test {
         assert_eq!(st, vec!["TTFF".to_string()]);
         let b = BigSem::new(&ac);
         assert_eq!(show_vals(&b.grounded_rounds().0), "TTFu");
+    }
+
+    /// the refinement-bounded oracle agrees with plain enumeration on small frameworks
+    #[test]
+    fn bigsem_models_agree_with_enumeration() {
+        use crate::gen::{gen_adf, gen_mid, LabelMode};
+        use crate::Rng;
+        let mut rng = Rng::new(11);
+        let norm = |mut v: Vec<Vec<Val>>| {
+            v.sort();
+            v
+        };
+        let mut with_models = 0;
+        for i in 0..4000 {
+            let g = if i % 4 == 0 { gen_mid(&mut rng, 6 + i % 5, 3) } else { let n = rng.range(1, 6); gen_adf(&mut rng, n, LabelMode::Plain) };
+            let s = Sem::new(&g.ac);
+            let b = BigSem::new(&g.ac);
+            assert_eq!(b.grounded_rounds().0, s.grounded());
+            assert_eq!(norm(b.complete(16).unwrap()), norm(s.complete()), "{:?}", g.ac);
+            assert_eq!(norm(b.two_valued(16).unwrap()), norm(s.two_valued()), "{:?}", g.ac);
+            assert_eq!(norm(b.stable(16).unwrap()), norm(s.stable()), "{:?}", g.ac);
+            if s.stable().len() >= 1 && s.two_valued().len() > s.stable().len() {
+                with_models += 1;
+            }
+        }
+        assert!(with_models > 100, "{}", with_models);
     }
 
     #[test]
